@@ -18,7 +18,7 @@ from geometer.base import KroneckerDelta, LeviCivitaTensor, Tensor, TensorCollec
 from . import snapshot
 
 DT = {"i": np.int64, "f": np.float64, "c": np.complex128, "i32": np.int32, "f32": np.float32, "b": np.bool_,
-      "i8": np.int8}
+      "i8": np.int8, "i16": np.int16, "f16": np.float16}
 
 # ---------------------------------------------------------------------------------------------------------
 # independent definitions of epsilon / delta
@@ -268,6 +268,8 @@ def meta(o) -> dict | None:
 
     if isinstance(o, TensorDiagram):
         return {"base": "diagram", "cls": "TensorDiagram", "dim": None, "coll": False, "fshape": ()}
+    if isinstance(o, list):
+        return {"base": "seq", "cls": "list", "dim": None, "coll": False, "fshape": (), "shape": (len(o),), "tshape": (0, 0)}
     if not isinstance(o, Tensor):
         return None
     try:
@@ -528,6 +530,11 @@ def _b_const(w, name):
 
     return {"I": geometer.point.I, "J": geometer.point.J, "infty": geometer.point.infty,
             "infty_plane": geometer.point.infty_plane, "absolute_conic": geometer.curve.absolute_conic}[name]
+
+
+def _b_ptlist(w, slots):
+    """a plain Python list of pool objects, kept in the pool: container arguments are arguments too"""
+    return [w.get(s) for s in slots]
 
 
 def _b_alias(w, of, how, idx=None):
